@@ -3,4 +3,5 @@
 set -e
 cd "$(dirname "${BASH_SOURCE[0]}")"
 PYTHONPATH="${VERIF_REPO:-/repo}/src:$PWD" /venv/bin/python -c "import lxml.etree, PIL, xlsxwriter, pptx, mc.cli; print('setup ok', pptx.__file__)"
+./check --selftest
 mkdir -p evidence replays
